@@ -26,8 +26,8 @@ import ast
 from . import e2_formula as F
 from .core import Unsupported
 from .e1_srcmodel import dotted
-from .e2_eval import AutoEvaluator, Unknown, is_unknown, need, IDENT_METHODS
-from .sem import unfn
+from .e2_eval import AutoEvaluator, Unknown, is_unknown, need, IDENT_METHODS, ZERO_CTORS, ONE_CTORS, DictValue, _assigned_names
+from .sem import unfn, module_consts
 
 MAX_PATHS = 600
 MAX_DEPTH = 3
@@ -256,6 +256,10 @@ def norm_atom(v):
 
 
 # ------------------------------------------------------------------------------------------------------------ evaluator
+def plain_first(node):
+    return bool(node.args) and not isinstance(node.args[0], ast.Starred)
+
+
 def _binop18(node, a, b, ev):
     op = node.op
     if is_unknown(a) or is_unknown(b) or isinstance(a, tuple) or isinstance(b, tuple):
@@ -282,8 +286,77 @@ def _binop18(node, a, b, ev):
 
 
 _REDUCE = {"np.any": "any", "any": "any", "np.all": "all", "all": "all"}
+# ufunc spellings of the operators
+_UF_CMP = {"not_equal": "NotEq", "equal": "Eq", "greater": "Gt", "greater_equal": "GtE", "less": "Lt", "less_equal": "LtE"}
+_OP_CMP = {"ne": "NotEq", "eq": "Eq", "gt": "Gt", "ge": "GtE", "lt": "Lt", "le": "LtE"}
+_UF_BIT = {"bitwise_and": ast.BitAnd, "bitwise_or": ast.BitOr, "bitwise_xor": ast.BitXor}
+_UF_LOGICAL = {"logical_and": ast.BitAnd, "logical_or": ast.BitOr, "logical_xor": ast.BitXor}
+_OP_BIT = {"and_": ast.BitAnd, "or_": ast.BitOr, "xor": ast.BitXor}
+_LIST_MUTATORS = {"append", "extend", "insert", "pop", "remove", "clear", "sort", "reverse", "update", "add", "discard", "setdefault", "popitem"}
+EMPTY = F.sym("@empty")            # an array with no element (np.empty(0), np.zeros((0, 2)), np.array([]), ...)
+MAX_UNROLL = 16
+
+
+def is_empty(v):
+    """the value is an array / list without elements"""
+    return (isinstance(v, tuple) and len(v) == 0) or sym_of(v) == "@empty"
+
+
+def is_boolean(v):
+    """the value is boolean by construction (a comparison, a reduction, a combination / selection of such)"""
+    u = unfn_m(v)
+    if u is None:
+        return sym_of(v) in ("True", "False")
+    nm, a = u
+    if nm.startswith("cmp:") or nm in ("any", "all", "not") or nm.startswith("bool:"):
+        return True
+    if nm in ("invert", "idx") or nm.startswith("mask:"):
+        vals = [x for x in a if not isinstance(x, str)]
+        return bool(vals) and (is_boolean(vals[0]) if nm == "idx" else all(is_boolean(x) for x in vals))
+    if nm == "astype" and len(a) == 2:
+        return sym_of(a[1]) in ("bool", "np.bool_")
+    return False
 _ATTRFN = {"np.shape": "shape", "np.size": "size", "np.ndim": "ndim"}
 _CONVERT = {"np.array", "np.asarray", "np.ascontiguousarray", "np.asanyarray", "np.require"}
+
+
+_CONSTS = {}
+
+
+def _consts(ctx, rel):
+    """module-level names bound once to a literal (sem.module_consts), per source model and file"""
+    k = (id(ctx.src), rel)
+    if k not in _CONSTS:
+        try:
+            _CONSTS[k] = module_consts(ctx, rel)
+        except Exception:  # noqa
+            _CONSTS[k] = {}
+    return _CONSTS[k]
+
+
+_PUBLIC = {}
+
+
+def _is_public(m, name):
+    """is the module-level function part of the module's interface (`__all__` when the module has one; otherwise: no leading underscore
+    and documented)?  Calls to interface functions stay opaque - they are what the rules name; everything else is a helper and is followed."""
+    k = id(m)
+    if k not in _PUBLIC:
+        names = None
+        for st in m.tree.body:
+            if isinstance(st, ast.Assign) and any(isinstance(t, ast.Name) and t.id == "__all__" for t in st.targets) \
+                    and isinstance(st.value, (ast.List, ast.Tuple)):
+                names = {e.value for e in st.value.elts if isinstance(e, ast.Constant) and isinstance(e.value, str)}
+        _PUBLIC[k] = names
+    names = _PUBLIC[k]
+    if names is not None:
+        return name in names
+    f = m.funcs.get(name)
+    return not name.startswith("_") and f is not None and ast.get_docstring(f) is not None
+
+
+def _str_of(x):
+    return F.fn("call:str", need(x))
 
 
 class PathEval(AutoEvaluator):
@@ -295,6 +368,8 @@ class PathEval(AutoEvaluator):
         self.decisions, self.trace, self.sites = decisions, trace, sites
         self.raised = None
         self._bv = 0
+        self._brk = self._cont = False
+        self.module_consts = _consts(ctx, rel)
         a = fn.args
         for p in a.posonlyargs + a.args + a.kwonlyargs + ([a.vararg] if a.vararg else []) + ([a.kwarg] if a.kwarg else []):
             self.env.setdefault(p.arg, F.sym(p.arg))
@@ -319,14 +394,169 @@ class PathEval(AutoEvaluator):
         return d if pol else (not d)
 
     # ---- statements
+    def run(self, stmts):
+        for st in stmts:
+            if self.done or self._brk or self._cont:
+                break
+            self.stmt(st)
+
     def stmt(self, st):
-        if self.done:
+        if self.done or self._brk or self._cont:
             return
         if isinstance(st, ast.Raise):
             self.raised = st
             self.done = True
             return
+        if isinstance(st, ast.Break):
+            self._brk = True
+            return
+        if isinstance(st, ast.Continue):
+            self._cont = True
+            return
+        if isinstance(st, ast.Expr) and isinstance(st.value, ast.Call) and self._list_method(st.value):
+            return
+        if isinstance(st, ast.AugAssign) and isinstance(st.op, ast.Add) and isinstance(st.target, ast.Name) \
+                and isinstance(st.value, (ast.List, ast.Tuple)) and isinstance(self.env.get(st.target.id), tuple):
+            # L += [x]  on a local list: concatenation (the generic evaluator would add element by element)
+            self.env[st.target.id] = self.env[st.target.id] + tuple(self.ev(e) for e in st.value.elts)
+            return
+        if isinstance(st, ast.For) and not st.orelse and self._for(st):
+            return
+        if isinstance(st, (ast.For, ast.While, ast.With, ast.Try)):
+            super().stmt(st)
+            self._forget_mutated(st)
+            return
         super().stmt(st)
+
+    # ---- local lists: `L = []`, `L.append(x)`, `a, b = L`; loops
+    def _list_method(self, call):
+        """a method call statement on a local list whose items are known: the list after the call"""
+        f = call.func
+        if not (isinstance(f, ast.Attribute) and isinstance(f.value, ast.Name) and isinstance(self.env.get(f.value.id), tuple)):
+            return False
+        nm, cur = f.value.id, self.env[f.value.id]
+        if f.attr == "append" and len(call.args) == 1 and not call.keywords and not isinstance(call.args[0], ast.Starred):
+            self.env[nm] = cur + (self.ev(call.args[0]),)
+        elif f.attr == "extend" and len(call.args) == 1 and not call.keywords and isinstance(self.ev(call.args[0]), tuple):
+            self.env[nm] = cur + self.ev(call.args[0])
+        elif f.attr in _LIST_MUTATORS:
+            self.env[nm] = Unknown(f"list changed by .{f.attr}()")
+        else:
+            return False
+        return True
+
+    def _forget_mutated(self, st):
+        """after a loop / block that was not executed: locals it changes through a method call or an item store are not known any more"""
+        for n in ast.walk(st):
+            nm = None
+            if isinstance(n, ast.Call) and isinstance(n.func, ast.Attribute) and isinstance(n.func.value, ast.Name) and n.func.attr in _LIST_MUTATORS:
+                nm = n.func.value.id
+            elif isinstance(n, ast.Subscript) and isinstance(n.ctx, (ast.Store, ast.Del)) and isinstance(n.value, ast.Name):
+                nm = n.value.id
+            if nm is not None and nm in self.env and nm not in self.pinned:
+                self.env[nm] = Unknown(f"{nm} is changed inside {type(st).__name__}")
+
+    def _items(self, node, it):
+        """the items of a loop over a literal sequence / a list of known items / range(constants) / enumerate or zip of such, else None"""
+        if isinstance(it, tuple):
+            return list(it)
+        if isinstance(node, ast.Call) and isinstance(node.func, ast.Name) and not node.keywords and node.func.id not in self.env:
+            args = [self.ev(a) for a in node.args if not isinstance(a, ast.Starred)]
+            if len(args) != len(node.args):
+                return None
+            if node.func.id == "range" and 1 <= len(args) <= 3:
+                ks = [const_of(a) for a in args]
+                if all(k is not None and k.denominator == 1 for k in ks):
+                    r = range(*[int(k) for k in ks])
+                    return [F.const(k) for k in r] if len(r) <= MAX_UNROLL else None
+            if node.func.id == "enumerate" and len(args) == 1 and isinstance(args[0], tuple):
+                return [(F.const(k), x) for k, x in enumerate(args[0])]
+            if node.func.id == "zip" and args and all(isinstance(a, tuple) for a in args) and len({len(a) for a in args}) == 1:
+                return [tuple(x) for x in zip(*args)]
+            if node.func.id == "reversed" and len(args) == 1 and isinstance(args[0], tuple):
+                return list(args[0])[::-1]
+        return None
+
+    def _for(self, st):
+        items = self._items(st.iter, self.ev(st.iter))
+        if items is not None and len(items) <= MAX_UNROLL:
+            # a loop over a sequence whose items are known is executed item by item
+            for x in items:
+                self._assign(st.target, x, st)
+                self._cont = False
+                self.run(st.body)
+                if self.done or self._brk:
+                    break
+            self._brk = self._cont = False
+            return True
+        return self._loop_as_comp(st)
+
+    def _loop_as_comp(self, st):
+        """a loop (nest) that only appends to local lists is the comprehension with the same generators and conditions:
+        `L = []` + `for a in A: for b in B: if c: L.append(e)`  gives L the value of  `[e for a in A for b in B if c]`"""
+        saved, bv = dict(self.env), self._bv
+        accs = {}
+        try:
+            ok = self._comp_for(st, [], accs)
+        except Unsupported:
+            ok = False
+        finally:
+            self.env, self._bv = saved, bv
+        if not ok or not accs:
+            return False
+        for nm, sites in accs.items():
+            if saved.get(nm) == () and len(sites) == 1:
+                elt, gens = sites[0]
+                try:
+                    self.env[nm] = F.fn("comp", wrap(elt), *[F.fn("gen", *g) for g in gens])
+                except Unsupported as e:
+                    self.env[nm] = Unknown(str(e))
+            else:
+                self.env[nm] = Unknown(f"{nm} is filled by a loop this evaluator does not express as a comprehension")
+        for n in _assigned_names(st):
+            if n not in accs and n not in self.pinned:
+                self.env[n] = Unknown("assigned inside a loop")
+        return True
+
+    def _comp_for(self, st, gens, accs):
+        if st.orelse:
+            return False
+        it = self._ev(st.iter)
+        if is_unknown(it):
+            return False
+        b = F.sym(f"@v{self._bv}")
+        self._bv += 1
+        self._bind(st.target, b)
+        return self._comp_stmts(st.body, gens + [[wrap(it)]], accs)
+
+    def _comp_stmts(self, stmts, gens, accs):
+        for s in stmts:
+            if isinstance(s, ast.For):
+                if not self._comp_for(s, gens, accs):
+                    return False
+            elif isinstance(s, ast.If) and not s.orelse:
+                c = self._ev(s.test)
+                if is_unknown(c) or isinstance(c, tuple):
+                    return False
+                if not self._comp_stmts(s.body, gens[:-1] + [gens[-1] + [need(c)]], accs):
+                    return False
+            elif isinstance(s, ast.Expr) and isinstance(s.value, ast.Call) and isinstance(s.value.func, ast.Attribute) and s.value.func.attr == "append" \
+                    and isinstance(s.value.func.value, ast.Name) and len(s.value.args) == 1 and not s.value.keywords \
+                    and not isinstance(s.value.args[0], ast.Starred):
+                elt = self._ev(s.value.args[0])
+                if is_unknown(elt):
+                    return False
+                accs.setdefault(s.value.func.value.id, []).append((elt, [list(g) for g in gens]))
+            elif isinstance(s, ast.Assign) and len(s.targets) == 1 and isinstance(s.targets[0], ast.Name) and s.targets[0].id not in accs:
+                v = self._ev(s.value)
+                if is_unknown(v):
+                    return False
+                self.env[s.targets[0].id] = v
+            elif isinstance(s, ast.Pass) or (isinstance(s, ast.Expr) and isinstance(s.value, ast.Constant)):
+                continue
+            else:
+                return False
+        return True
 
     def _assign(self, target, v, st, aug=False):
         if isinstance(target, ast.Subscript) and isinstance(target.value, ast.Name):
@@ -369,6 +599,15 @@ class PathEval(AutoEvaluator):
             return self._comp(node)
         if isinstance(node, ast.Constant) and isinstance(node.value, bool):
             return F.sym(repr(node.value))
+        # the text of one value: f"{x}", "%d" % x, "%s" % x  are str(x) (x is an integer wherever the rules look at such a text)
+        if isinstance(node, ast.JoinedStr) and len(node.values) == 1 and isinstance(node.values[0], ast.FormattedValue) \
+                and node.values[0].format_spec is None and node.values[0].conversion in (-1, 115):
+            x = self._ev(node.values[0].value)
+            return x if is_unknown(x) or isinstance(x, tuple) else _str_of(x)
+        if isinstance(node, ast.BinOp) and isinstance(node.op, ast.Mod) and isinstance(node.left, ast.Constant) and node.left.value in ("%d", "%s", "%i") \
+                and not isinstance(node.right, ast.Tuple):
+            x = self._ev(node.right)
+            return x if is_unknown(x) or isinstance(x, tuple) else _str_of(x)
         return super()._ev(node)
 
     def _comp(self, node):
@@ -434,6 +673,57 @@ class PathEval(AutoEvaluator):
         meth = f.attr if isinstance(f, ast.Attribute) else None
         # a method call on a value of the function (a local, a parameter, an expression) - not on a module such as np
         on_value = meth is not None and (d is None or d.split(".")[0] in self.env)
+        leaf = d.split(".")[-1] if d else None
+        lib = d is not None and "." in d and d.split(".")[0] in ("np", "numpy", "operator") and d.split(".")[0] not in self.env
+        plain2 = len(node.args) == 2 and not node.keywords and not any(isinstance(a, ast.Starred) for a in node.args)
+        plain1 = len(node.args) == 1 and not node.keywords and not isinstance(node.args[0], ast.Starred)
+        # ufunc / operator-module spellings of the operators
+        if lib and plain2 and (leaf in _UF_CMP or (d.startswith("operator.") and leaf in _OP_CMP)):
+            (a, b), _ = self._args(node)
+            if isinstance(a, tuple) or isinstance(b, tuple):
+                return NotImplemented
+            return F.fn("cmp:" + (_UF_CMP.get(leaf) or _OP_CMP[leaf]), need(a), need(b))
+        if lib and plain2 and (leaf in _UF_BIT or leaf in _UF_LOGICAL or (d.startswith("operator.") and leaf in _OP_BIT)):
+            (a, b), _ = self._args(node)
+            if isinstance(a, tuple) or isinstance(b, tuple):
+                return NotImplemented
+            if leaf in _UF_LOGICAL:
+                # logical_and(x, y) is (x != 0) & (y != 0); for boolean operands that is x & y
+                a = a if is_boolean(a) else F.fn("cmp:NotEq", need(a), F.const(0))
+                b = b if is_boolean(b) else F.fn("cmp:NotEq", need(b), F.const(0))
+            op = (_UF_BIT.get(leaf) or _UF_LOGICAL.get(leaf) or _OP_BIT[leaf])()
+            return _binop18(ast.BinOp(left=node.args[0], op=op, right=node.args[1]), a, b, self)
+        if lib and plain1 and leaf in ("invert", "bitwise_not", "logical_not", "inv", "not_"):
+            (a,), _ = self._args(node)
+            if isinstance(a, tuple):
+                return NotImplemented
+            if leaf in ("logical_not", "not_") and not is_boolean(a):
+                return F.fn("cmp:Eq", need(a), F.const(0))
+            return F.fn("invert", need(a))
+        # np.take(a, i) / a.take(i) is a[i] (no axis: the flattened array - the rules meet it on 1-D data)
+        if (d in ("np.take", "numpy.take") and plain2) or (on_value and meth == "take" and plain1):
+            pos, _ = self._args(node)
+            base, ix = (pos[0], pos[1]) if meth != "take" or not on_value else (self._need(f.value), pos[0])
+            if not isinstance(base, tuple):
+                return F.fn("idx", need(base), wrap(ix))
+        # arrays without elements
+        if d in ZERO_CTORS or d in ONE_CTORS or d in ("np.full", "np.arange", "np.ndarray"):
+            if node.args and not isinstance(node.args[0], ast.Starred):
+                shp = self.ev(node.args[0])
+                dims = list(shp) if isinstance(shp, tuple) else [shp]
+                if d == "np.arange" and len(node.args) != 1:
+                    dims = []
+                if any(const_of(x) == 0 for x in dims):
+                    return EMPTY
+        if d in _CONVERT and plain_first(node) and is_empty(self.ev(node.args[0])):
+            return EMPTY
+        # "{}".format(x) / format(x) / repr(x): the text of one value
+        if isinstance(f, ast.Attribute) and f.attr == "format" and isinstance(f.value, ast.Constant) and f.value.value in ("{}", "{0}", "{:d}", "{0:d}") and plain1:
+            (x,), _ = self._args(node)
+            return NotImplemented if isinstance(x, tuple) else _str_of(x)
+        if d in ("format", "repr") and plain1 and d not in self.env:
+            (x,), _ = self._args(node)
+            return NotImplemented if isinstance(x, tuple) else _str_of(x)
         # reductions
         if d in _REDUCE and len(node.args) == 1 and not node.keywords:
             (x,), _ = self._args(node)
@@ -513,7 +803,7 @@ class PathEval(AutoEvaluator):
         for q in (f"{self.qual}.{name}", f"{top}.{name}"):
             if q in m.funcs and q != name:
                 return self.ctx.src.func(self.rel, q)
-        if name.startswith("_") and not name.startswith("__") and name in m.funcs:
+        if name in m.funcs and not name.startswith("__") and not _is_public(m, name):
             return self.ctx.src.func(self.rel, name)
         return None
 
